@@ -134,9 +134,10 @@ class AndersonCD(BaseSolver):
             if stop_crit <= self.tol:
                 break
             # 1) select features : all unpenalized, + 2 * (nnz and penalized)
+            gsupp_pen = np.logical_and(
+                penalty.generalized_support(w[:n_features]), pen)
             ws_size = max(min(self.p0 + n_unpen, n_features),
-                          min(2 * penalty.generalized_support(w[:n_features]).sum() -
-                              n_unpen, n_features))
+                          min(2 * gsupp_pen.sum() + n_unpen, n_features))
 
             opt[unpen] = np.inf  # always include unpenalized features
             opt[penalty.generalized_support(w[:n_features])] = np.inf
